@@ -88,11 +88,13 @@ def _layout_shard(shard, n, tier, seed, budget_s):
                 if (ell != "none" and nb and na) or (ell == "none" and na):
                     continue
                 for L in range(6):
-                    for kind in ("tuple", "list"):
+                    for kind in ("tuple", "list", "pair-zip", "pair-map"):
                         for outer in (0, 1):          # the unpacked parameter alone / between two plain parameters
                             idx += 1
                             if idx % n != shard:
                                 continue
+                            if kind.startswith("pair") and (L != 2 or outer):
+                                continue              # value pairs handed to a callback by an adaptor (a temporary tuple)
                             before = ["p%d" % i for i in range(nb)]; after = ["q%d" % i for i in range(na)]
                             mid = [] if ell == "none" else ["rest..."] if ell == "id" else ["..."]
                             names = before + (["rest"] if ell == "id" else []) + after
@@ -114,6 +116,8 @@ def _layout_shard(shard, n, tier, seed, budget_s):
                             else:
                                 fn = "f = |%s| (%s,)" % (pat, ", ".join(names))
                                 call = "f(%s)" % lit(kind, vals)
+                                if kind == "pair-zip": call = "(10,).zip((11,)).each(f).to_list()[0]"
+                                if kind == "pair-map": call = "m = {}\n  m.insert 10, 11\n  m.each(f).to_list()[0]"
                                 want = "#E" if exp is None else "(" + ", ".join(exp) + ")"
                             src = "%s\nx = try\n  %s\ncatch _\n  '#E'\nprint(x)\n" % (fn, call)
                             rr = w.exec(src, timeout=20, limit_ms=3000)
